@@ -63,7 +63,11 @@ func (e *establishLinkHandler) HandleValueAdded(inst directive.Instance, val dir
 			Debug("starting peer hold-open tracking")
 		go func() {
 			e.mtx.Lock()
-			e.rigidRef = e.di.AddReference(nil, false)
+			// re-check: the links may be gone, or another add may have
+			// acquired the reference, by the time this goroutine runs.
+			if e.valCount != 0 && e.rigidRef == nil {
+				e.rigidRef = e.di.AddReference(nil, false)
+			}
 			e.mtx.Unlock()
 		}()
 	}
